@@ -45,7 +45,52 @@ Operand == {<<t, 0>> : t \in PrimT \cup {ARR, SLICE, STRUCT, WORD}} \cup {<<PTR,
             \cup (IF Thorough THEN {<<t, 0>> : t \in {Arr("3", U8), Slice(U8), <<"word", "W2">>}} \cup {<<Ptr(Bool), 1>>, <<Ptr(Bool), 0>>, <<PPTR, 2>>, <<PPTR, 1>>}
                   ELSE {})
 
-Cell(ctx, op, a, ka, b, kb) == [ctx |-> ctx, op |-> op, a |-> a, ka |-> ka, b |-> b, kb |-> kb]
+Cell(ctx, op, a, ka, b, kb) == [ctx |-> ctx, op |-> op, a |-> a, ka |-> ka, b |-> b, kb |-> kb, x |-> "direct", y |-> "top"]
+InCtx(cell, x, y) == [cell EXCEPT !.x = x, !.y = y]
+
+(***************************************************************************)
+(* Second dimension: contexts.  Every KIND of cell is crossed with every   *)
+(* expression context (kinds whose construct is an expression) and every   *)
+(* statement context, over a REDUCED set of type pairs (i32, u8, usize,    *)
+(* bool, a pointer, an array) -- not the full matrix.                      *)
+(***************************************************************************)
+XContexts == {"paren", "elem", "member", "arg", "index", "castop", "binop", "ret", "cond"}
+YContexts == {"block", "loop", "then", "else", "elif_then", "elif_else", "elif2", "label"}
+ExprKinds == {"bin", "un", "as", "cast", "arg", "arg2", "argn"}
+
+RT == {I32, U8, P("usize"), Bool}
+ROperand == {<<t, 0>> : t \in RT} \cup {<<PTR, 1>>, <<ARR, 0>>}
+Reduced ==
+    {Cell("bin", op, t, 0, y[1], y[2]) : op \in BinOps \ {"adv"}, t \in RT, y \in ROperand}
+    \cup {Cell("cmp", op, t, 0, y[1], y[2]) : op \in CmpOps, t \in RT, y \in ROperand}
+    \cup {Cell("un", op, t, 0, <<>>, 0) : op \in UnOps, t \in RT}
+    \cup {Cell("as", "", x[1], x[2], t, 0) : x \in ROperand \cup {<<Char8, 0>>}, t \in RT}
+    \cup {Cell("cast", "", x[1], x[2], t, 0) : x \in {<<I32, 0>>, <<PTR, 1>>}, t \in {I32, PTR8}}
+    \cup {Cell("arg", "", s, ks, d, 0) : s \in {I32, U8, Bool, PTR, ARR}, ks \in 0..1, d \in {I32, U8, PTR, SLICE, STRUCT}}
+    \cup {Cell("arg2", "", s, ks, d, 0) : s \in {I32, U8, Bool}, ks \in 0..1, d \in {I32, U8, PTR}}
+    \cup {Cell("argn", "", <<>>, n, <<>>, m) : n \in 0..3, m \in 0..2}
+    \cup {Cell("assign", "", s, ks, d, kd) : s \in {I32, U8, Bool, PTR}, ks \in 0..1, d \in {I32, U8, PTR}, kd \in 0..1}
+    \cup {Cell("init", "", s, ks, d, 0) : s \in {I32, U8, Bool, PTR}, ks \in 0..1, d \in {I32, U8, PTR}}
+    \cup {Cell("elem", "", s, 0, d, 0) : s \in RT, d \in RT}
+    \cup {Cell("member", "", s, ks, d, 0) : s \in {I32, U8, Bool, PTR}, ks \in 0..1, d \in {I32, U8, PTR}}
+
+\* the type the compiler gives the offending expression (what its context is built for)
+TypeInContext(cl) == CASE cl.ctx \in {"bin", "un"} -> ExprType(cl.a, cl.ka)
+                       [] cl.ctx \in {"as", "cast"} -> cl.b
+                       [] OTHER -> I32
+Passable(t) == IsPrim(t) \/ Kind(t) \in {"ptr", "word"}
+XOK(x, t) == CASE x = "paren" -> TRUE
+               [] x \in {"elem", "member", "arg", "ret"} -> Passable(t)
+               [] x = "index" -> t = P("usize")
+               [] x = "castop" -> IsInt(t) \/ t = Bool
+               [] x = "binop" -> IsInt(t)
+               [] x = "cond" -> IsPrim(t)
+
+ContextCells ==
+    {InCtx(q[1], q[2], "top") : q \in {p \in {r \in Reduced : r.ctx \in ExprKinds} \X XContexts : XOK(p[2], TypeInContext(p[1]))}}
+    \cup {InCtx(cl, "direct", y) : cl \in Reduced, y \in YContexts}
+    \cup {InCtx(q[1], q[2], q[3]) : q \in {p \in {r \in Reduced : r.ctx \in {"arg", "argn"}} \X {"elem", "member", "arg"} \X {"elif_then", "elif_else", "loop"} :
+                                                XOK(p[2], TypeInContext(p[1]))}}
 
 Cells ==
     {Cell("bin", op, x[1], x[2], y[1], y[2]) : op \in BinOps \ {"adv"}, x \in Operand, y \in Operand}
@@ -63,6 +108,7 @@ Cells ==
     \cup {Cell("arg2", "", s, ks, d, 0) : s \in VarShapes, ks \in 0..1, d \in ParamShapes}
     \cup {Cell("argn", "", <<>>, n, <<>>, m) : n \in 0..3, m \in 0..2}
     \cup {Cell("ret", "", x[1], x[2], d, 0) : x \in {y \in SrcShapes \X (0..2) : SrcOK("ret", y[1], y[2])}, d \in RetShapes}
+    \cup ContextCells
 
 Init == c \in Cells
 Next == UNCHANGED c
